@@ -39,11 +39,9 @@ from harness.core import MachineryError
 PID = 'C16'
 INVS = ['TypeOK', 'LoadReturnsLastSaved', 'FileHoldsLastSaved', 'RefusalExactly', 'RefusedLeavesFsUnchanged',
         'OverwriteIsReplaceNotMerge', 'FrameOtherPath', 'SaveLeavesObjectUnchanged', 'NoMerge']
-BROKEN = {'no_remove': {'OverwriteIsReplaceNotMerge', 'RefusalExactly', 'NoMerge', 'LoadReturnsLastSaved',
-                        'FileHoldsLastSaved'},
-          'no_guard': {'RefusalExactly', 'NoMerge', 'OverwriteIsReplaceNotMerge', 'FileHoldsLastSaved'},
-          'pkl_refuses': {'RefusalExactly'},
-          'writer_marks': {'SaveLeavesObjectUnchanged'}}
+# deliberately broken designs of Persist.tla and the invariant (checked alone) that must catch each
+BROKEN = {'no_remove': 'OverwriteIsReplaceNotMerge', 'no_guard': 'NoMerge', 'refusal_cleans_up': 'RefusedLeavesFsUnchanged',
+          'pkl_refuses': 'RefusalExactly', 'writer_marks': 'SaveLeavesObjectUnchanged'}
 
 
 def cfg(depth, *, ka='KA_quick', modes='AllModes', emitmod=1, design='code', emit=True, spec=False,
@@ -276,9 +274,9 @@ def spec_nonvacuity(ctx, designs):
     """the invariants of Persist.tla can fail: each deliberately broken design is caught by TLC"""
     res = {}
     for d in designs:
-        r = ctx.tlc('MC_Persist', cfg(2, ka='KA_quick', design=d, emit=False), name=f'persist_broken_{d}',
+        r = ctx.tlc('MC_Persist', cfg(2, ka='KA_quick', design=d, emit=False, invs=[BROKEN[d]]), name=f'persist_broken_{d}',
                     must_pass=False, count=False, workers=4, timeout=600)
-        if r.ok or r.invariant not in BROKEN[d]:
+        if r.ok or r.invariant != BROKEN[d]:
             raise MachineryError(f'broken design {d} of Persist.tla is not caught by the invariants '
                                  f'(ok={r.ok}, invariant={r.invariant})')
         res[d] = r.invariant
@@ -405,7 +403,7 @@ def run(ctx):
     with mp.Pool(16) as pool:
         # ---- the model itself + emission of histories
         if thorough:
-            runs = [(2, 'KA_all', 'AllModes', 1), (3, 'KA_quick', 'AllModes', 12), (4, 'KA_small', 'NoKept', 400)]
+            runs = [(2, 'KA_all', 'AllModes', 1), (3, 'KA_quick', 'AllModes', 30), (4, 'KA_small', 'NoKept', 1200)]
         else:
             runs = [(2, 'KA_all', 'AllModes', 6), (3, 'KA_small', 'AllModes', 100)]
         ctx.exhaustive = False
@@ -426,9 +424,9 @@ def run(ctx):
             ctx.sample({'kinds': first['kinds'], 'events': [h['ev'] for h in first['hist']],
                         'outcomes': [h['out'] for h in first['hist']]})
             total += replay_all(ctx, pool, r, safe, label)
-        nsim, dsim = (4000, 10) if thorough else (320, 8)
+        nsim, dsim = (2000, 10) if thorough else (320, 8)
         r = ctx.tlc('MC_Persist', cfg(dsim, ka='KA_all'), name='persist_sim', simulate=f'num={nsim // 16}',
-                    depth=dsim + 1, workers=16, timeout=600)
+                    depth=dsim + 1, workers=16, timeout=45)
         if r.n_emitted < nsim // 2:
             raise MachineryError(f'simulation emitted only {r.n_emitted} histories')
         total += replay_all(ctx, pool, r, safe, 'sim', limit=nsim)
@@ -446,9 +444,9 @@ def run(ctx):
         if missing:
             raise MachineryError(f'vacuous run: event classes never executed on real objects: {missing}')
         # ---- I -> S
-        n = record_and_validate(ctx, pool, safe, 1500 if thorough else 160, 14 if thorough else 10)
+        n = record_and_validate(ctx, pool, safe, 1000 if thorough else 160, 14 if thorough else 10)
         ctx.extra['recorded_histories'] = n
         # ---- clause c
-        structural(ctx, pool, safe, 3000 if thorough else 480, 2500 if thorough else 250, 8)
-    spec_nonvacuity(ctx, list(BROKEN) if thorough else ['no_remove'])
+        structural(ctx, pool, safe, 2400 if thorough else 480, 1500 if thorough else 250, 8)
+    spec_nonvacuity(ctx, list(BROKEN) if thorough else ['no_remove', 'refusal_cleans_up'])
     probes(ctx)
